@@ -347,8 +347,8 @@ def run(ctx):
                        'key_hash recomputed independently (own binary Micheline of the key with nested pairs + blake2b + base58)']
     I = ALL_INITS
     if ctx.quick:
-        run_config(ctx, ['a', 'b'], 3, [I[0], I[7], I[6]], {'string': 3})
-        run_config(ctx, ['a', 'b'], 2, [I[0], I[7], I[5]], {f: 2 for f in FAMILIES if f != 'string'})
+        run_config(ctx, ['a', 'b'], 3, [I[0], I[7]], {'string': 3})
+        run_config(ctx, ['a', 'b'], 2, [I[0], I[7], I[6]], dict({f: 2 for f in FAMILIES if f != 'string'}, string=2))
         VALTYPE[0] = 'list'
         run_config(ctx, ['a', 'b'], 2, [I[0], I[7], I[6]], {'string': 2, 'nat': 2})
         VALTYPE[0] = 'string'
